@@ -265,6 +265,7 @@ func genC08(c *Ctx) {
 		"utc": {"direct", "ntp-sntp", "head", "keep", "keep-ntp", "bad", "", "ntp-", "httpxsdate-httpiso-httpxsdatems-httpisoms-none"},
 		"statuscode": {"[{cycle:30,rsq:0,code:404}]", "[{cycle:0,rsq:0,code:404}]", "[{cycle:3,rsq:-1,code:404}]", "[{cycle:3,rsq:1,code:200}]", "[{x}]", "[{cycle:30,rsq:0,code:404,rep:V300}]",
 			"[{cycle:30,rsq:0,code:404},{cycle:5,rsq:1,code:599,rep:*}]", "[{cycle:68719476737,rsq:0,code:404}]", "[{cycle:68719476736,rsq:0,code:400}]", "[{}]", "[]", "x", "", "[{cycle:30}]", "[{code:404}]",
+			"[++]", "++++", "[+{+]", "{+++", "[{+}]", "[+{cycle:30,+rsq:0,code:404}+]", "[{cycle:30,rsq:0,code:404}+]", "[]++", // '+' is a blank after QueryUnescape
 			"[{cycle:30,rsq:0,code:404,rep:}]", "[{cycle:30,rsq:0,code:404,zz:1}]", "{{cycle:30,rsq:0,code:404}}", "[{cycle:1:2,rsq:0,code:404}]", "[{cycle:x,rsq:0,code:404}]", "[{cycle:5,cycle:7,rsq:0,code:404}]"},
 		"traffic":      {"u10", "u10,d5", ",", "u0", "u10d", "d1u1s1h1", "x", "", "u68719476736", "u68719476737", "u9223372036854775808u9223372036854775808", "10u3", "u1,,u2", "U1"},
 		"annexI":       {"a=1", "a", "a=1=2", "a=1,b=2", "", "a=,b", "=", ","},
@@ -306,8 +307,8 @@ func genC08(c *Ctx) {
 	}
 	emitCfg := func(parts []string, now int) {
 		url := "/livesim2/" + strings.Join(parts, "/")
-		if strings.ContainsAny(url, " %+") {
-			url = strings.NewReplacer(" ", "", "%", "", "+", "").Replace(url) // the line protocol is space separated; escapes are driver glue, not model
+		if strings.ContainsAny(url, " %") {
+			url = strings.NewReplacer(" ", "", "%", "").Replace(url) // the line protocol is space separated; '+' stands for a blank (QueryUnescape), '%' escapes are not generated
 		}
 		c.Emit("cfg "+url+" "+strconv.Itoa(now), len(parts) > 1)
 	}
